@@ -2458,6 +2458,10 @@ class MutableGitIndexTree(mutabletree.MutableTree, GitTree):
                     raise errors.BzrMoveFailedError(
                         from_rel, to_rel, NoSuchFile(to_rel)
                     )
+                if not self.is_versioned(from_rel):
+                    raise errors.BzrMoveFailedError(
+                        from_rel, to_rel, NotVersionedError(from_rel)
+                    )
                 if self.basis_tree().is_versioned(to_rel):
                     raise errors.BzrMoveFailedError(
                         from_rel, to_rel, errors.AlreadyVersionedError(to_rel)
